@@ -134,23 +134,44 @@ def without_class(t: str, cls: str) -> str:
     return ''.join('a' if char_class(ch) == cls else ch for ch in t)
 
 
-def class_label(t: str) -> str:
-    """Stable label of the critical classes present in a (narrowed) text."""
+# fixed priority in which one class is chosen to label a text (key vocabulary: these names and other/blank/empty)
+CLASS_PRIORITY = ['backslash', 'triple-quote', 'single-quote', 'newline', 'double-quote', 'backtick', 'brace',
+                  'bracket', 'hash', 'comment-marker', 'non-ascii', 'paren', 'dot']
+
+
+def label_classes(t: str) -> List[str]:
+    """Classes present in a text, in the fixed priority order ('quote' split into triple-/single-quote:
+    a text with ''' has both)."""
     cl = classes_of(t)
-    lab = []
-    for c in CLASS_ORDER[::-1]:
-        if c in cl:
-            if c == 'quote':
-                lab.append('triple-quote' if "'''" in t else 'single-quote')
-            else:
-                lab.append(c)
-    if not lab:
-        if t == '':
-            return 'empty'
-        if t.strip() == '':
-            return 'blank'
-        return 'other'
-    return '+'.join(lab[:3])
+    out = []
+    for c in CLASS_PRIORITY:
+        if c == 'triple-quote':
+            if "'''" in t:
+                out.append(c)
+        elif c == 'single-quote':
+            if "'" in t:
+                out.append(c)
+        elif c in cl:
+            out.append(c)
+    return out
+
+
+def class_label(t: str) -> str:
+    """ONE class name for a text: the first class present in the fixed priority order."""
+    lab = label_classes(t)
+    if lab:
+        return lab[0]
+    if t == '':
+        return 'empty'
+    if t.strip() == '':
+        return 'blank'
+    return 'other'
+
+
+def without_label_class(t: str, label: str) -> str:
+    if label in ('triple-quote', 'single-quote'):
+        return without_class(t, 'quote')
+    return without_class(t, label)
 
 
 def narrow_text(t: str, fails, in_domain=lambda s: True) -> str:
